@@ -165,3 +165,43 @@ func VfCopyAccess() {
 	}
 	zzvf.Assert((err == nil) == want, "copy-decision-needs-destination-write-and-source-read")
 }
+
+// VfCopyAccessSameBucket: C03 – VerifyObjectCopyAccess (real code incl. real policy evaluation) for a copy inside one bucket
+// under a policy that distinguishes keys: the statement set allows the caller any subset of {write the destination key,
+// read the source key, read the destination key, write the source key}. The copy is granted exactly when the caller may
+// write the destination key AND read the source key (plain user, not owner; the policy decides alone).
+func VfCopyAccessSameBucket() {
+	who := "caller"
+	var items []auth.BucketPolicyItem
+	grant := func(name string, action auth.Action, key string) bool {
+		if zzvf.Choice(name, 2) == 0 {
+			return false
+		}
+		items = append(items, auth.BucketPolicyItem{Effect: auth.BucketPolicyAccessTypeAllow, Principals: auth.Principals{who: struct{}{}},
+			Actions: auth.Actions{action: struct{}{}}, Resources: auth.Resources{"bkt/" + key: struct{}{}}})
+		return true
+	}
+	putDst := grant("may_put_destination", auth.PutObjectAction, "dstobj")
+	getSrc := grant("may_get_source", auth.GetObjectAction, "srcobj")
+	grant("may_get_destination", auth.GetObjectAction, "dstobj")
+	grant("may_put_source", auth.PutObjectAction, "srcobj")
+	// a statement about something else keeps the policy non-empty (with no policy at all the ACL would decide)
+	items = append(items, auth.BucketPolicyItem{Effect: auth.BucketPolicyAccessTypeAllow, Principals: auth.Principals{who: struct{}{}},
+		Actions: auth.Actions{auth.ListBucketAction: struct{}{}}, Resources: auth.Resources{"bkt": struct{}{}}})
+	pol, _ := json.Marshal(auth.BucketPolicy{Statement: items})
+	be := &zzvfbe.Recorder{}
+	zzvfbe.Hooks["GetBucketPolicy"] = func(rec *zzvfbe.Recorder, args []any) (any, error) { return pol, nil }
+	acl := auth.ACL{Owner: "owner"}
+	aclBytes, _ := json.Marshal(acl)
+	zzvfbe.Hooks["GetBucketAcl"] = func(rec *zzvfbe.Recorder, args []any) (any, error) { return aclBytes, nil }
+	err := auth.VerifyObjectCopyAccess(context.Background(), be, "bkt/srcobj", auth.AccessOptions{
+		Acl: acl, AclPermission: auth.PermissionWrite, IsRoot: false, Acc: auth.Account{Access: who, Role: auth.RoleUser},
+		Bucket: "bkt", Object: "dstobj", Action: auth.PutObjectAction,
+	})
+	if err == nil {
+		zzvf.Reach("granted")
+	} else {
+		zzvf.Reach("denied")
+	}
+	zzvf.Assert((err == nil) == (putDst && getSrc), "same-bucket-copy-needs-write-on-destination-key-and-read-on-source-key")
+}
